@@ -362,3 +362,43 @@ def Ax.canon : Ax → Nat
   | .N => 0 | .C => 1 | .O => 2 | .H => 3 | .W => 4 | .RI => 5
 
 end WV
+
+namespace WV
+variable {α : Type}
+
+/-! ### Backward passes of the four autograd Functions (one channel) -/
+
+/-- `FWD_J1.backward(dl, dh)`: the level-1 *inverse* run with the analysis filters;
+`dh = none` is the 0-d placeholder of a skipped level -/
+def FWD_J1_backward [Add α] [Sub α] [Neg α] [Mul α] [OfNat α 0] (s : α) (sym : Bool) (h0 h1 : List α)
+    (rc : Nat × Nat) (dl : Img α) (dh : Option (List (Cplx α))) : Option (Img α) :=
+  invJ1 s sym h0 h1 rc (some dl) dh
+
+/-- `FWD_J2PLUS.backward`: `inv_j2plus` with the two trees exchanged
+(`h0a, h0b = h0b, h0a; h1a, h1b = h1b, h1a`) -/
+def FWD_J2PLUS_backward [Add α] [Sub α] [Neg α] [Mul α] [OfNat α 0] (s : α) (h0a h1a h0b h1b : List α)
+    (dl : Img α) (dh : Option (List (Cplx α))) : Option (Img α) :=
+  invJ2 s h0b h1b h0a h1a (some dl) dh
+
+/-- `INV_J1.backward(dy)` for the `needs_input_grad` pair `(nl, nh)`: the level-1 *forward*
+run with the synthesis filters -/
+def INV_J1_backward [Add α] [Sub α] [Mul α] [OfNat α 0] (s : α) (sym : Bool) (g0 g1 : List α)
+    (nl nh : Bool) (dy : Img α) : Option (Img α) × Option (List (Cplx α)) :=
+  if nl ∧ ¬ nh then ((fwdJ1 s sym g0 g1 true dy).1, none)
+  else if nh then
+    let r := fwdJ1 s sym g0 g1 false dy
+    (if nl then some r.1 else none, r.2)
+  else (none, none)
+
+/-- `INV_J2PLUS.backward(dy)`: `fwd_j2plus` with the two trees exchanged -/
+def INV_J2PLUS_backward [Add α] [Sub α] [Mul α] [OfNat α 0] (s : α) (g0a g1a g0b g1b : List α)
+    (nl nh : Bool) (dy : Img α) : Option (Option (Img α) × Option (List (Cplx α))) :=
+  if nl ∧ ¬ nh then do
+    let r ← fwdJ2 s g0b g1b g0a g1a true dy
+    some (some r.1, none)
+  else if nh then do
+    let r ← fwdJ2 s g0b g1b g0a g1a false dy
+    some (if nl then some r.1 else none, r.2)
+  else some (none, none)
+
+end WV
